@@ -29,7 +29,7 @@ class quiet_stdout:
 PROPERTY = 'C06'
 LEVEL = 'exploration'
 RULE = ('scratch CLI projects (module graphs pair/chain/diamond/4-chain spread over two input directories, output_dirs built from an injective family: a glob rule "{in}/*:{out}", a prefix rule "{in}/:{out}" and the fallback); '
-	'histories of edit(module, variant), run, run -f, delete-output(module), corrupt-header(module: remove the line / change the recorded hash, application version, transpiler version, transpiler class or module path / garble the JSON); oracle after every non-forced run: the output tree (paths and bytes) equals '
+	'histories of edit(module, variant), run, run -f, delete-output(module), corrupt-header(module: remove the line / change the recorded hash, application version, transpiler version, transpiler class or module path / garble the JSON; every history ends with one such single-field difference followed by a non-forced run); oracle after every non-forced run: the output tree (paths and bytes) equals '
 	'the tree a forced run writes on a copy; files whose content and header already equal the forced result keep their mtime; every output starts with a header that MetaHeader reads back to the same string; '
 	'the set of output paths equals the reference model of the mapping rules (all distinct); non-trivial = two runs with an edit of an imported module between them, or a delete-output/corrupt-header before a non-forced run; distinct by (graph, history)')
 ASSUMPTIONS = [
@@ -63,6 +63,10 @@ def cases(draw, exclude: frozenset = frozenset()):
 		# the reporting options of the command line (-v log of every handler, -p profile) must not change what a run writes
 		opts = rnd.choice(['', '', '', '-v', '-v', '-p']) if k == 'run' else ''
 		ops.append([k, m, visible, rnd.randint(1, 3), mode, opts])
+	# every history ends with an output whose recorded header differs from the current one in exactly one field (or is missing), followed by
+	# a non-forced run: each of the four header fields the property names decides regeneration on its own
+	tail_mode = rnd.choice(['hash', 'app-version', 'transpiler-version', 'module-path', 'module-path', 'transpiler-module', 'remove'])
+	ops.append(['corrupt_header', rnd.choice(mods), 0, 1, tail_mode, ''])
 	ops.append(['run', mods[0], 0, 1, 'remove', rnd.choice(['', '', '-v'])])
 	# overlapping input globs: one module file is also named explicitly, so it is listed twice
 	return {'graph': gname, 'pkg': pkg, 'ops': ops, 'also_listed': rnd.choice(mods) if rnd.random() < 0.4 else None}
